@@ -40,6 +40,33 @@ def _bool_and_str_keys(h, depth=0):
     return any(_bool_and_str_keys(c, depth + 1) for c in kids)
 
 
+def _json_same(a, b):
+    """two JSON values are the same document (numbers by value: 2 and 2.0 are the same number)"""
+    # (a boolean is the number 0 / 1: a Minimize filled with booleans writes `false` and reloads as 0.0)
+    if isinstance(a, (int, float)) and isinstance(b, (int, float)):
+        # (up to the last bits: Deviate keeps variance x entries and divides again)
+        return a == b or (a != a and b != b) or abs(a - b) <= 1e-12 * max(abs(a), abs(b))
+    if isinstance(a, dict) and isinstance(b, dict):
+        return set(a) == set(b) and all(_json_same(a[k], b[k]) for k in a)
+    if isinstance(a, (list, tuple)) and isinstance(b, (list, tuple)):
+        return len(a) == len(b) and all(_json_same(x, y) for x, y in zip(a, b))
+    return type(a) is type(b) and a == b
+
+
+def _lead_count(h):
+    """is the first leaf in the library's traversal order a Count reached through collections only?"""
+    name = getattr(h, "name", "")
+    if name == "Count":
+        return True
+    if name in ("Label", "UntypedLabel"):
+        kids = list(h.pairs.values())
+    elif name in ("Index", "Branch"):
+        kids = list(h.values)
+    else:
+        return False
+    return bool(kids) and _lead_count(kids[0])
+
+
 def _same_spec(a, b):
     """bin specifications compared value by value (dicts, lists of dicts, numpy scalars)"""
     if isinstance(a, dict) and isinstance(b, dict):
@@ -196,11 +223,19 @@ class Recorder:
             arg["pass"] = arg["data"]
             if op.get("bf") == "dict":        # a dict of columns
                 arg["pass"] = {k: arg["data"][k] for k in ("x", "y", "s", "c")}
+            elif op.get("bf") == "ints":      # ... with whole-number columns as int64 arrays
+                arg["pass"] = {k: arg["data"][k] for k in ("x", "y", "s", "c")}
+                for k in ("x", "y", "s"):
+                    col = arg["data"][k]
+                    if len(col) and np.all(np.isfinite(col)) and np.all(col == np.round(col)):
+                        arg["pass"][k] = col.astype(np.int64)
 
             if op["wf"] == "scalar":
                 arg["w"] = to_float(op["wsc"])
             elif op["wf"] == "array":
                 arg["w"] = np.array([to_float(x) for x in op["ws"]], dtype=np.float64)
+                if op.get("wdt") in ("i8", "i4") and np.all(arg["w"] == np.round(arg["w"])):
+                    arg["w"] = arg["w"].astype(np.int64 if op["wdt"] == "i8" else np.int32)
                 arg["wb"] = arg["w"].tobytes()
         elif kind == "Mul":
             arg["f"] = self.factor(op)
@@ -405,8 +440,10 @@ class Recorder:
                 from .doc import tag, untag
 
                 extra["redoc"] = {"j": "str", "v": "-"}
-                r = hg.Factory.fromJson(untag(op["doc"]))
+                given = untag(op["doc"])
+                r = hg.Factory.fromJson(given)
                 extra["redoc"] = tag(r.toJson())
+                extra["fix"] = _json_same(r.toJson(), given)
             elif kind == "Drop":
                 del O[op["s"]]
             else:
@@ -425,6 +462,7 @@ class Recorder:
             tgt = self.objs.get(op["t"] if kind != "IAdd" else op["a"])
             extra["boolstr"] = bool(out == "ok" and _bool_and_str_keys(tgt))
         if kind == "FillNumpy":
+            extra["lead"] = _lead_count(self.objs.get(op["s"]))
             extra["inputs_unchanged"] = arg["data"].tobytes() == arg["before"] and (
                 "wb" not in arg or arg["w"].tobytes() == arg["wb"])
         if kind == "MH":
@@ -435,6 +473,8 @@ class Recorder:
             extra.setdefault("kept", True)
         if kind in ("View", "CatView", "Grid2D", "Acc") and "res" not in extra:
             extra["res"] = {}
+        if kind == "FromDoc":
+            extra.setdefault("fix", False)
         if kind == "Doc" and "doc" not in extra:
             extra["doc"] = {"j": "str", "v": "-"}
         if kind == "Eq" and "res" not in extra:
